@@ -41,3 +41,89 @@ PROPS['C03'] = dict(
     assumptions=['binary64 rounding (1 µm / 0.02 mm clauses) is decided by search against a 50-digit oracle, not proved',
                  'distance of the loop-exit iterate from the exact fixed point (contraction) is not proved'],
 )
+
+TM_TB = ['the real-number reading of convert.py/constants.py produced by the translator',
+         'Spec/Krueger.lean: Krüger–Karney α/β series to n^8, derived symbolically (tools/derive_krueger.py) and '
+         'validated against 50-digit quadrature (tools/krueger_validate.py); independent of /repo']
+
+PROPS['C01'] = dict(
+    module='GeodeVerif.Proofs.C01', namespace='GeodeVerif.C01',
+    required_theorems=['ellipsoid_constants', 'rect_radius_eq', 'alpha_eq_ref', 'conformal_lat_def', 'gauss_schreiber_def',
+                       'series_is_complex_sine', 'geo2grid_symmetry', 'false_origin_and_hemisphere', 'utm_auto_zone',
+                       'utm_zone_range', 'isg_auto_zone', 'validation_logic', 'round4_close', 'psf_call_site', 'geo2grid_unfold'],
+    tie_functions=['Convert.rect_radius', 'Convert.alpha_coeff', 'Convert.geo2grid'],
+    tie_n={'quick': 4000, 'thorough': 200000},
+    probe='C01.py',
+    rule='tie: seeded (lat, lon, zone, ellipsoid, projection) incl. band/zone edges, ISG, random projections; bitwise GenF '
+         'vs real geo2grid/alpha_coeff/rect_radius/Ellipsoid.__init__; non-trivial = returned a value. search: exact '
+         'Transverse Mercator by 30-digit complex quadrature (independent of the Krüger series), auto-zone, hemisphere, angle classes.',
+    trusted_base=TM_TB,
+    assumptions=['|E−E_exact|, |N−N_exact| ≤ 0.2 mm is decided by search against the exact-TM oracle, not proved: it needs the '
+                 'truncation error of the n^8 series against the elliptic-integral definition and a binary64 error analysis'],
+)
+
+PROPS['C02'] = dict(
+    module='GeodeVerif.Proofs.C02', namespace='GeodeVerif.C02',
+    required_theorems=['beta_vs_ref', 'delta1_small', 'gs_inverse', 'newton_target', 'newton_step', 'newton_exit',
+                       'f1tn_is_derivative', 'hemisphere_mirror', 'validation_logic', 'round11_close', 'psf_call_site',
+                       'grid2geo_spec'],
+    tie_functions=['Convert.beta_coeff', 'Convert.grid2geo', 'Convert.geo2grid'],
+    tie_n={'quick': 4000, 'thorough': 200000},
+    probe='C02.py',
+    rule='tie: grid coordinates from geographic positions and on a lattice, all zones/ISG, both hemispheres, validation '
+         'edges; bitwise GenF vs real grid2geo (incl. Newton iteration counts via identical results). search: round trips '
+         '(0.2 mm / 2e-9 deg), hemisphere mirror, stand-alone converter vs library.',
+    trusted_base=TM_TB + ['while-loop fuel 200 in the model of the Newton loop (the source caps at 100 iterations; proved never exhausted)'],
+    assumptions=['numeric closure bounds (0.2 mm, 2e-9 deg, 1e-10 deg) are decided by search: they depend on the O(n^6) mismatch '
+                 'between the truncated α and β series, Newton convergence and rounding',
+                 'Standalone/mga2gda.py is exercised by the search step only (not modelled)'],
+)
+
+PROPS['C10'] = dict(
+    module='GeodeVerif.Proofs.C10', namespace='GeodeVerif.C10',
+    required_theorems=['psf_unfold', 'psf_uses_call_ellipsoid_projection', 'psf_scales_with_cmscale', 'call_sites_pass_arguments',
+                       'geo2grid_ok_form', 'grid2geo_ok_form', 'pq_is_derivative', 'psf_factorisation', 'conv_terms',
+                       'conv_sign', 'psf_on_cm', 'round8_close'],
+    tie_functions=['Convert.psfandgridconv', 'Convert.geo2grid', 'Convert.grid2geo'],
+    tie_n={'quick': 4000, 'thorough': 200000},
+    probe='C10.py',
+    rule='tie: psfandgridconv and both conversions with non-default ellipsoids and projections, bitwise. search: point scale '
+         'and convergence of the exact projection (differentiated exact-TM oracle), sign convention by finite differences, '
+         'forward/inverse agreement.',
+    trusted_base=TM_TB,
+    assumptions=['2e-8 / 1e-9 deg against the exact projection is decided by search (same reason as C01)'],
+)
+
+GEOD_TB = ['the real-number reading of geodesy.py produced by the translator',
+           'Vincenty (1975) A, B, C series as stated in the theorems vincenty_AB_ref / vincenty_C_ref']
+
+PROPS['C04'] = dict(
+    module='GeodeVerif.Proofs.C04', namespace='GeodeVerif.C04',
+    required_theorems=['vincdir_eq', 'vincenty_AB_ref', 'vincenty_A_taylor', 'vincenty_C_ref', 'u_squared_def',
+                       'vincdir_ellipsoid_only', 'clairaut', 'aux_sphere_unit', 'aux_sphere_point', 'sigma_recurrence',
+                       'sigma_exit', 'zero_distance', 'rounding_close'],
+    tie_functions=['Geodesy.vincdir'],
+    tie_n={'quick': 5000, 'thorough': 300000},
+    probe='C04.py',
+    rule='tie: seeded starts (poles, cardinals, 0..2e7 m, shipped and random ellipsoids), bitwise GenF vs real vincdir. '
+         'search: exact geodesic by 30-digit quadrature (no series), 1 mm / 1e-8 deg, angle classes.',
+    trusted_base=GEOD_TB,
+    assumptions=['1 mm / 1e-8 deg against the exact geodesic is decided by search: truncation of Vincenty\'s series, '
+                 'convergence of the sigma iteration and rounding are not proved'],
+)
+
+PROPS['C05'] = dict(
+    module='GeodeVerif.Proofs.C05', namespace='GeodeVerif.C05',
+    required_theorems=['vincinv_eq', 'coincident', 'not_coincident', 'shift_invariant', 'periodic', 'periodic_fails',
+                       'swap_symmetric_distance', 'azimuth_range', 'vincenty_AB_ref', 'vincenty_C_ref', 'u_squared_def',
+                       'distance_formula', 'lambda_exit', 'rounding_close'],
+    tie_functions=['Geodesy.vincinv'],
+    tie_n={'quick': 5000, 'thorough': 300000},
+    probe='C05.py',
+    rule='tie: seeded pairs (coincident, same meridian/parallel, antimeridian, near-antipodal non-convergent), bitwise GenF '
+         'vs real vincinv incl. the 1000-iteration cap. search: exact direct geodesic followed with the returned distance and '
+         'azimuth (2 mm), reverse azimuth, swap and longitude-shift clauses.',
+    trusted_base=GEOD_TB,
+    assumptions=['2 mm / azimuth accuracy against the exact geodesic, and that binary64 evaluation preserves the proved '
+                 'real-number symmetries to 1 mm, are decided by search'],
+)
